@@ -845,6 +845,7 @@ impl Sim {
 }
 
 pub fn run_case(c: &SCase) -> SOut {
+    crate::util::probe_mark(&["C15"]);
     let mut sim = Sim::new();
     let mut violation = None;
     for op in &c.ops {
